@@ -96,7 +96,7 @@ Multi ==
 ForeignVals == {CText(AsciiPattern(1, 5)), CU(1), CMap(<< <<CU(1), CText(<<97>>)>> >>), CBytes(Pattern(2, 3))}
 ForeignSweep ==
     UNION {UNION {{UCase(b, m, pos, k, u, "unknown-foreign-name") :
-                      u \in (IF Deep THEN ForeignVals ELSE {CText(AsciiPattern(1, 5)), CU(1)}), k \in ForeignKeys(m.s),
+                      u \in {CText(AsciiPattern(1, 5)), CU(1)}, k \in ForeignKeys(m.s),
                       pos \in (IF Deep THEN {0, Len(At(BaseTree(b), m.p).m)} ELSE {Len(At(BaseTree(b), m.p).m)})}
                   : m \in ExtMaps(b)} : b \in (IF Deep THEN {BaseSeq[1], BaseSeq[2], BaseSeq[3]} ELSE {BaseSeq[1]})}
 
